@@ -123,29 +123,53 @@ Definition move_ctor (s : state) (v w : var) : state :=
 Definition conv_move_ctor (s : state) (v w : var) : state :=
   let p := ptr_of s w in setv (setv s v (Live p)) w (Live None).
 
-(** ** Assignment (both variables live; [v] and [w] may be the same variable or alias one object) *)
+(** ** Assignment (both variables live; [v] and [w] may be the same variable or alias one object)
+
+    As of ccc5d47 the assignments retarget first and release the previous object last ([release(old)] is the static
+    helper [if (o && o->dec_reference()) Deleter()(o)]).  The order shipped before (release first, read [other.ptr_]
+    afterwards) is kept below as [*_shipped]; on the states of THIS model (managed objects hold plain data) both orders
+    give the same state ([copy_assign_shipped_eq], [move_assign_shipped_eq] in CPtrProofs.v); they differ as soon as
+    the source handle is a member of the object being released — see Nested.v. *)
 
 (** operator=(const CountingPtr& other):
-      [if (ptr_ == other.ptr_) return *this; inc_reference(other.ptr_); dec_reference(); ptr_ = other.ptr_;] *)
+      [if (ptr_ == other.ptr_) return *this; Type* old = ptr_; ptr_ = other.ptr_; inc_reference(ptr_); release(old);] *)
 Definition copy_assign (s : state) (v w : var) : state :=
   if optnat_eqb (ptr_of s v) (ptr_of s w) then s else
-  let s1 := inc_reference s (ptr_of s w) in
-  let s2 := dec_reference (nodel v) s1 (ptr_of s1 v) in
-  setv s2 v (Live (ptr_of s2 w)).
+  let old := ptr_of s v in
+  let s1 := setv s v (Live (ptr_of s w)) in
+  let s2 := inc_reference s1 (ptr_of s1 v) in
+  dec_reference (nodel v) s2 old.
 Definition conv_copy_assign (s : state) (v w : var) : state :=
   if optnat_eqb (ptr_of s v) (ptr_of s w) then s else
+  let old := ptr_of s v in
+  let s1 := setv s v (Live (ptr_of s w)) in
+  let s2 := inc_reference s1 (ptr_of s1 v) in
+  dec_reference (nodel v) s2 old.
+
+(** operator=(CountingPtr&& other):
+      [if (ptr_ == other.ptr_) return *this; Type* old = ptr_; ptr_ = other.ptr_; other.ptr_ = nullptr; release(old);] *)
+Definition move_assign (s : state) (v w : var) : state :=
+  if optnat_eqb (ptr_of s v) (ptr_of s w) then s else
+  let old := ptr_of s v in
+  let s1 := setv s v (Live (ptr_of s w)) in
+  let s2 := setv s1 w (Live None) in
+  dec_reference (nodel v) s2 old.
+Definition conv_move_assign (s : state) (v w : var) : state :=
+  if optnat_eqb (ptr_of s v) (ptr_of s w) then s else
+  let old := ptr_of s v in
+  let s1 := setv s v (Live (ptr_of s w)) in
+  let s2 := setv s1 w (Live None) in
+  dec_reference (nodel v) s2 old.
+
+(** the order shipped before ccc5d47:
+      copy: [inc_reference(other.ptr_); dec_reference(); ptr_ = other.ptr_;]
+      move: [dec_reference(); ptr_ = other.ptr_; other.ptr_ = nullptr;] *)
+Definition copy_assign_shipped (s : state) (v w : var) : state :=
+  if optnat_eqb (ptr_of s v) (ptr_of s w) then s else
   let s1 := inc_reference s (ptr_of s w) in
   let s2 := dec_reference (nodel v) s1 (ptr_of s1 v) in
   setv s2 v (Live (ptr_of s2 w)).
-
-(** operator=(CountingPtr&& other):
-      [if (ptr_ == other.ptr_) return *this; dec_reference(); ptr_ = other.ptr_; other.ptr_ = nullptr;] *)
-Definition move_assign (s : state) (v w : var) : state :=
-  if optnat_eqb (ptr_of s v) (ptr_of s w) then s else
-  let s1 := dec_reference (nodel v) s (ptr_of s v) in
-  let s2 := setv s1 v (Live (ptr_of s1 w)) in
-  setv s2 w (Live None).
-Definition conv_move_assign (s : state) (v w : var) : state :=
+Definition move_assign_shipped (s : state) (v w : var) : state :=
   if optnat_eqb (ptr_of s v) (ptr_of s w) then s else
   let s1 := dec_reference (nodel v) s (ptr_of s v) in
   let s2 := setv s1 v (Live (ptr_of s1 w)) in
